@@ -604,6 +604,13 @@ func TestC10(t *testing.T) {
 		if burst {
 			n = rapid.IntRange(51, 400).Draw(rt, "burst_frames")
 		}
+		// many large frames on one connection (flow-stats replies of a full table, packet-ins of jumbo frames):
+		// more of them than the stream has pool buffers, each above any "small buffer" threshold a pool might use
+		large := !burst && gen.Pick(rt, "many_large_frames", 10) == 0
+		if large {
+			n = rapid.IntRange(51, 70).Draw(rt, "large_frames")
+			c.Label("more_large_frames_than_pool_buffers")
+		}
 		frames := make([][]byte, n)
 		total := 0
 		for i := range frames {
@@ -613,6 +620,12 @@ func TestC10(t *testing.T) {
 			}
 			if burst {
 				sz = 8 + 8*gen.Pick(rt, "burst_size", 3)
+			}
+			if large {
+				sz = []int{4200, 8200, 9000, 16400, 33000}[gen.Pick(rt, "large_size", 5)]
+				if i%7 == 3 {
+					sz = 8 + i
+				}
 			}
 			frames[i] = rawFrame(rt, uint32(i+1), sz)
 			total += sz
